@@ -21,14 +21,14 @@ D2 = '{"acl", "penaltybox"}'
 
 def run(ctx):
     quick = ctx.tier == "quick"
-    ctx.rule = ("cases = (a) every include graph over main/a/b/missing (4096) x {root-level, in-subroutine} emitted by "
+    ctx.rule = ("cases = (a) every include graph over main/a/b/missing (4096) x {root-level, in-subroutine, nested in if/else blocks} emitted by "
                 "TLC from spec/Include.tla, (b) call-graph programs (lifecycle + user subroutines, explicit scopes, "
                 "recursion, uncalled and duplicated subroutines, unused declarations / locals / functional subroutine / "
                 "goto decorations) emitted from spec/LintPasses.tla; each linted by the real linter in a watched child "
                 "process N times and under seeded permutations of the subroutine declarations; distinct = distinct "
                 "graphs / programs")
     ctx.assumptions = [
-        "a child that dies or does not answer within 60 s (180 s when re-tried alone) is a crash / hang; normal cases take milliseconds",
+        "a child that dies or does not answer within 20 s (60 s when re-tried alone) is a crash / hang; normal cases take milliseconds, tens of milliseconds on an overloaded machine",
         "the child caps its goroutine stacks at 64 MiB (debug.SetMaxStack) so a runaway recursion dies quickly; the "
         "falco binary is run under ulimit -v 4 GiB",
         "determinism over Go's randomised map iteration is sampled (N runs), it is enumerated only in the model",
